@@ -975,6 +975,20 @@ pub fn generate(ctx: &Ctx) {
     sw("DIDJwk::parse", A_DID, &[("did:jwk:", ""), (&jwk_did, "")], l45),
     sw("DIDJwk::parse", A_B64, &[("did:jwk:", ""), (&jwk_did, ""), ("did:jwk:", &jwk_b64[4..]), (&jwk_did[..jwk_did.len() - 4], ""), ("did:jwk:eyJ", "")], l45),
     sw("DIDJwk::from_json", A_B64, &[(&jwk_did, ""), (&jwk_did[..jwk_did.len() - 4], "")], l45),
+    // a did:jwk over every kind of key the JWK type knows (public and private OKP/EC, RSA, symmetric, key agreement)
+    sw(
+      "DIDJwk::parse",
+      A_B64,
+      &[
+        (&format!("did:jwk:{}", b64(crate::json::SEED_JWK_OKP_PRIV)), ""),
+        (&format!("did:jwk:{}", b64(crate::json::SEED_JWK_EC)), ""),
+        (&format!("did:jwk:{}", b64(crate::json::SEED_JWK_EC_K)), ""),
+        (&format!("did:jwk:{}", b64(crate::json::SEED_JWK_RSA)), ""),
+        (&format!("did:jwk:{}", b64(crate::json::SEED_JWK_OCT)), ""),
+        (&format!("did:jwk:{}", b64(crate::json::SEED_JWK_X25519)), ""),
+      ],
+      (2, 3),
+    ),
     sw(
       "Timestamp::parse",
       A_TS,
